@@ -158,22 +158,25 @@ class Project:
 		with open(os.path.join(self.root, 'config.yml'), 'w', encoding='utf-8') as f:
 			f.write(text)
 
-	def next_mtime(self) -> int:
+	def next_mtime(self) -> float:
+		"""Strictly increasing virtual clock in steps of 0.25 s (exact in binary): consecutive edits fall into the same
+		integer second, so an identity that truncates the mtime is exposed."""
 		self.tick += 1
-		return CLOCK_BASE + self.tick
+		return CLOCK_BASE + self.tick * 0.25
 
 	def module_file(self, module: str) -> str:
 		"""`module` is a dotted module path starting with the package, or a (dotted) name inside the package."""
 		dotted = module if not self.package or module.startswith(f'{self.package}.') else f'{self.package}.{module}'
 		return os.path.join(self.root, *dotted.split('.')) + '.py'
 
-	def write_module(self, module: str, source: str) -> int:
+	def write_module(self, module: str, source: str) -> float:
 		path = self.module_file(module)
 		os.makedirs(os.path.dirname(path), exist_ok=True)
 		with open(path, 'w', encoding='utf-8') as f:
 			f.write(source)
 		t = self.next_mtime()
-		os.utime(path, (t, t))
+		ns = int(CLOCK_BASE) * 1_000_000_000 + self.tick * 250_000_000
+		os.utime(path, ns=(ns, ns))
 		return t
 
 	def remove_module(self, module: str) -> None:
